@@ -24,11 +24,8 @@ type script struct {
 
 var scripts []*script
 
-// probeScripts run only through -replay (they are not part of the default streams)
-var probeScripts []*script
-
 func scriptByName(n string) *script {
-	for _, s := range append(append([]*script{}, scripts...), probeScripts...) {
+	for _, s := range scripts {
 		if s.name == n && n != "" {
 			return s
 		}
@@ -266,10 +263,11 @@ func init() {
 		},
 	})
 
-	// (probe, not part of the default run) genesis with the sqrt voting-power distribution and a
+	// (6) KNOWN FINDING (not repaired): genesis with the sqrt voting-power distribution and a
 	// validator stake of 2^100 (admissible: sqrt(supply) is below the cap); a passed scheduler
-	// parameter change switches to the LINEAR distribution.
-	probeScripts = append(probeScripts, &script{
+	// parameter change switches to the LINEAR distribution, after which the election's voting
+	// power conversion overflows.  Reported under findingSqrtLinear.
+	scripts = append(scripts, &script{
 		name: "sqrtlinear", blocks: 12,
 		knobs: func(k *knobs) { baseKnobs(k); k.SqrtHuge = true },
 		block: func(w *world, b int) *blockPlan {
@@ -296,27 +294,37 @@ func init() {
 		},
 	})
 
-	// (probe) a passed scheduler parameter change sets MinValidators = 2 while MaxValidators = 1
-	probeScripts = append(probeScripts, &script{
+	// (7) Scheduler parameter changes that would make every election fail -- {min 2, max 1},
+	// {max 0}, {min -1} -- are refused at submission (repair 2b1f48e); a consistent one
+	// {min 2, max 3} passes and the elections go on.
+	scripts = append(scripts, &script{
 		name: "minmaxvalidators", blocks: 14, knobs: baseKnobs,
 		block: func(w *world, b int) *blockPlan {
 			g := w.g
 			bp := &blockPlan{proposer: b % len(w.props), votes: muxdrv.VotesAll, votesTag: "all"}
 			local := map[staking.Address]uint64{}
 			fee := muxdrv.Fee(2, muxdrv.DefaultGas)
-			switch b {
-			case 0:
-				mn, mx := 2, 1
-				ch := schedulerAPI.ConsensusParameterChanges{MinValidators: &mn, MaxValidators: &mx}
+			submit := func(mn, mx *int, title string) {
+				ch := schedulerAPI.ConsensusParameterChanges{MinValidators: mn, MaxValidators: mx}
 				k := g.Accounts[1].Key
 				tx := governance.NewSubmitProposalTx(w.nextNonce(k, local), fee, &governance.ProposalContent{
-					Metadata:         &governance.ProposalMetadata{Title: "min 2 max 1"},
+					Metadata:         &governance.ProposalMetadata{Title: title},
 					ChangeParameters: &governance.ChangeParametersProposal{Module: schedulerAPI.ModuleName, Changes: cbor.Marshal(ch)},
 				})
-				bp.txs = append(bp.txs, genTx{raw: muxdrv.Sign(k, tx), kind: "submit_change_params"})
+				bp.txs = append(bp.txs, genTx{raw: muxdrv.Sign(k, tx), kind: "submit_change_params (" + title + ")"})
+			}
+			ip := func(v int) *int { return &v }
+			switch b {
+			case 0:
+				submit(ip(2), ip(1), "min 2 max 1")
+				submit(nil, ip(0), "max 0")
+				submit(ip(-1), nil, "min -1")
+				submit(ip(2), ip(3), "min 2 max 3")
 			case 1:
-				for _, v := range g.Validators {
-					bp.txs = append(bp.txs, genTx{raw: muxdrv.Sign(v.Entity, muxdrv.TxCastVote(w.nextNonce(v.Entity, local), fee, 1, governance.VoteYes)), kind: "cast_vote"})
+				for _, id := range w.proposalIDs() {
+					for _, v := range g.Validators {
+						bp.txs = append(bp.txs, genTx{raw: muxdrv.Sign(v.Entity, muxdrv.TxCastVote(w.nextNonce(v.Entity, local), fee, id, governance.VoteYes)), kind: "cast_vote"})
+					}
 				}
 			}
 			return bp
